@@ -858,12 +858,43 @@ Proof.
 Qed.
 
 (* ---------- loading over a warm cache: the record of a served region is brought up to date, never deleted ---------- *)
-Lemma put_loaded_cold c r : find_id c (fst r) = None -> put_loaded c r = check_and_put c r /\ rw_loaded c r = None.
+Definition all_behind (c : cache) (r : Z * rv) : Prop := forall o, In o c -> fst o <= fst r.
+Lemma filter_id_all {A} (f : A -> bool) l : (forall x, In x l -> f x = true) -> filter f l = l.
 Proof.
-  intros H. unfold put_loaded, rw_loaded, check_and_put. rewrite H. destruct (accepts c r); split; reflexivity.
+  induction l as [|a l IH]; intros H; [reflexivity|]. cbn [filter]. rewrite (H a (or_introl eq_refl)).
+  f_equal. apply IH. intros x Hx. apply H. right. exact Hx.
 Qed.
-Lemma put_loaded_accepted c r : accepts c r = true -> put_loaded c r = check_and_put c r /\ rw_loaded c r = None.
-Proof. intros H. unfold put_loaded, rw_loaded. rewrite H. split; reflexivity. Qed.
+Lemma put_loaded_behind c r : all_behind c r -> accepts c r = true -> put_loaded c r = check_and_put c r.
+Proof.
+  intros Hb Ha. unfold put_loaded. rewrite Ha. unfold check_and_put. rewrite Ha. cbn [fst snd]. f_equal.
+  apply filter_id_all. intros id Hid. apply in_map_iff in Hid. destruct Hid as [o [<- Ho]].
+  unfold evicted in Ho. apply filter_In in Ho. destruct Ho as [Ho _]. apply Z.leb_le. exact (Hb o Ho).
+Qed.
+Lemma put_loaded_cold c r : all_behind c r -> find_id c (fst r) = None -> put_loaded c r = check_and_put c r /\ rw_loaded c r = None.
+Proof.
+  intros Hb H. split.
+  - destruct (accepts c r) eqn:Ha; [exact (put_loaded_behind c r Hb Ha)|].
+    unfold put_loaded, check_and_put. rewrite Ha, H. reflexivity.
+  - unfold rw_loaded. rewrite H. destruct (accepts c r); reflexivity.
+Qed.
+Lemma put_loaded_accepted c r : all_behind c r -> accepts c r = true -> put_loaded c r = check_and_put c r /\ rw_loaded c r = None.
+Proof. intros Hb H. split; [exact (put_loaded_behind c r Hb H)|]. unfold rw_loaded. rewrite H. reflexivity. Qed.
+
+(* whatever the cache holds, the callback never asks the load to delete a record it has not reached yet *)
+Lemma put_loaded_deletes_behind_pf c r id : In id (snd (put_loaded c r)) -> id <= fst r.
+Proof.
+  unfold put_loaded. destruct (accepts c r).
+  - cbn [snd]. intros H. apply filter_In in H. destruct H as [_ H]. apply Z.leb_le. exact H.
+  - destruct (find_id c (fst r)); cbn [snd In]; intros H; [contradiction|]. destruct H as [<-|[]]. lia.
+Qed.
+(* ... and it differs from CheckAndPutRegion's answer only by those ids *)
+Lemma put_loaded_cache_pf c r : accepts c r = true ->
+  fst (put_loaded c r) = fst (check_and_put c r) /\
+  forall id, In id (snd (check_and_put c r)) -> id <= fst r -> In id (snd (put_loaded c r)).
+Proof.
+  intros Ha. unfold put_loaded. rewrite Ha. cbn [fst snd]. split; [reflexivity|].
+  intros id Hi Hle. apply filter_In. split; [exact Hi|]. apply Z.leb_le. exact Hle.
+Qed.
 
 (* the step of the load for a record that the cache rejects while it holds a region of the same id *)
 Theorem stale_record_is_rewritten_pf (m : amap rv) (c : cache) k v v' nx :
@@ -884,3 +915,19 @@ Lemma reelected_leader_example :
   let ops := [OSaveRegion 1 r1; OSaveRegion 2 r2; OSaveRegionF 1 r1' false; OLoadWarm [(1, r1'); (2, r2)]] in
   last (run run_op sinit ops) BUnit = BCache RDone [(1, r1); (2, r2)] [(1, r1'); (2, r2)] [(1, r1'); (2, r2)].
 Proof. vm_compute. reflexivity. Qed.
+
+(* a cache that lags behind the shared store: region 5 = [10,40) is cached; during another leader's term it was split and the
+   left half merged away, the store holds 1 = [10,20) and 5 = [20,40), both newer. The member is elected again and reloads:
+   record 1 pushes the cached 5 out, record 5 is then read (it sits in the same page) and cached. Its record must stay. *)
+Lemma lagging_cache_example :
+  let old5 := RV 10 40 1 5 28 in let r1 := RV 10 20 1 6 28 in let r5 := RV 20 40 1 6 28 in
+  let ops := [OSaveRegion 5 old5; OSaveRegion 1 r1; OSaveRegion 5 r5; OLoadWarm [(5, old5)]; OLoadRegions] in
+  skipn 3 (run run_op sinit ops) = [BCache RDone [(1, r1); (5, r5)] [(1, r1); (5, r5)] [(1, r1); (5, r5)]; BRegions RDone [(1, r1); (5, r5)]].
+Proof. vm_compute. reflexivity. Qed.
+(* with the callback as it was before dc3cb19 the same load leaves region 5 served and without a record *)
+Lemma lagging_cache_eager_witness :
+  let old5 := RV 10 40 1 5 28 in let r1 := RV 10 20 1 6 28 in let r5 := RV 20 40 1 6 28 in
+  let m := [(1, r1); (5, r5)] in
+  let res := page_loop never_fails put_loaded_eager rw_loaded region_limit_min (fuel_for m region_limit0) m 0 region_limit0 O [(5, old5)] [] in
+  fst (fst (fst res)) = RDone /\ snd (fst res) = [(1, r1)] /\ find_id (snd res) 5 = Some r5.
+Proof. vm_compute. repeat split; reflexivity. Qed.
